@@ -174,8 +174,11 @@ func randomTree(r *core.Rng, maxFiles int, maxSize int) []cliTreeFile {
 	var fs []cliTreeFile
 	for i := 0; i < n; i++ {
 		sz := sizes[r.Intn(len(sizes))]
+		if sz >= 5000 {
+			sz += r.Intn(997) // sizes that are not multiples of anything (-b auto derives the block size from them)
+		}
 		if sz > maxSize {
-			sz = maxSize
+			sz = maxSize - r.Intn(13)
 		}
 		name := fmt.Sprintf("f%d.%s", i, []string{"txt", "bin", "dat", "knz.txt", "tar"}[r.Intn(5)])
 		fs = append(fs, cliTreeFile{Rel: filepath.Join(dirs[r.Intn(len(dirs))], name), Shape: gen.Shapes[r.Intn(len(gen.Shapes))], Size: sz})
@@ -623,14 +626,17 @@ func c19(run *core.Run, replay string) {
 	}
 	optSets = append(optSets, []string{"-t", "BWT+RANK+ZRLT", "-e", "ANS0", "-b", "64k", "-j", "4", "-x"}, []string{"-t", "lz", "-e", "huffman", "-b", "1m", "-j", "1", "-x64"},
 		[]string{"-t", "TEXT+ROLZX", "-e", "FPAQ", "-b", "256k", "-j", "3"}, []string{"-l", "3", "-s", "-j", "2"}, []string{"-t", "NONE", "-e", "NONE", "-b", "4k", "-j", "8", "-x32"},
-		[]string{"-l", "2", "-b", "auto", "-j", "2"})
-	nTrees := run.Pick(16, 200)
+		[]string{"-l", "2", "-b", "auto", "-j", "2"}, []string{"-l", "8", "-b", "auto", "-j", "2"}, []string{"-e", "TPAQ", "-t", "NONE", "-b", "auto", "-j", "3"}, []string{"-l", "9", "-b", "auto", "-j", "1"},
+		[]string{"-l", "5", "-b", "auto", "-j", "4", "-x"}, []string{"-t", "LZ", "-e", "HUFFMAN", "-s", "-j", "1", "-b", "16k"}, []string{"-l", "4", "-s", "-j", "3", "-b", "32k", "-x64"}, []string{"-t", "TEXT", "-e", "ANS0", "-b", "auto", "-j", "5"})
+	nTrees := run.Pick(len(optSets)+4, 200)
 	for i := 0; i < nTrees; i++ {
 		r := core.Derive(S, "c19tree", i)
 		opts := optSets[i%len(optSets)]
 		maxSize := 300000
-		if len(opts) == 2 && (opts[1] == "7" || opts[1] == "8" || opts[1] == "9") {
-			maxSize = 30000
+		for k := range opts {
+			if k+1 < len(opts) && (opts[k] == "-l" && (opts[k+1] == "7" || opts[k+1] == "8" || opts[k+1] == "9") || opts[k] == "-e" && opts[k+1] == "TPAQ") {
+				maxSize = 30000
+			}
 		}
 		files := randomTree(r, 6, maxSize)
 		kind := []string{"tree-inplace", "tree-outdir", "tree-inplace", "file", "stdio"}[i%5]
